@@ -123,6 +123,11 @@ def gen_cases(tier, seed):
             p1["sym"] = True
         if rng.random() < 0.5:
             p1["inferral"] = rng.choice((["minimise"], ["rename"], ["minimise", "rename"], ["merge"]))
+        if intuniv.rng_for(seed, "C13/ne", i).random() < 0.25:
+            # a two-way single-child rule that is not an equivalence: classes share an equivalence
+            # label without being folded into equivalence paths (redundant patterns make it apply)
+            p1["inferral"] = ["minimise_ne"] + [x for x in p1["inferral"] if x != "minimise"]
+            c1 = c12.add_redundant(c1, rng)
         if kind == "onesided":
             # the two universes merge classes differently: the symmetry in the pack of one
             # searcher only, several rules per class (two-step expansions), the same class or
@@ -166,8 +171,13 @@ def gen_cases(tier, seed):
             p2 = c12.atom_pack(rng)
             if rw.is_empty(c2):
                 continue
+        variant = rng.choice(("plain", "eqpath"))
+        if "minimise_ne" in p1["inferral"] or "minimise_ne" in p2.get("inferral", ()):
+            # ParallelSpecFinder documents that it assumes classes sharing an equivalence label
+            # to be equivalent; only the equivalence-path variant is well-formed here
+            variant = "eqpath"
         yield {"id": produced, "kind": kind, "c1": c1, "p1": p1, "c2": c2, "p2": p2,
-               "variant": rng.choice(("plain", "eqpath")), "N": N[tier]}
+               "variant": variant, "N": N[tier]}
         produced += 1
 
 
